@@ -10,18 +10,21 @@ import os
 from ..ir import Program
 from .. import frontend, capcheck
 from . import capcommon
+from . import prim_common
 
 
 def run(ck):
     prog, info, st = capcommon.run(ck, "C02", "R", 250, 45)
+    prim = prim_common.primitive_rule(ck, prog, "C02", ck.report)
     fx = selftest(ck)
-    cov = dict(explanation="%d read obligations over all function definitions: %d discharged, %d outside the reach of the domain in %d functions (listed with reasons, not claimed), "
+    cov = dict(primitives_by_byte_accounting={k: dict(paths=v.get("paths"), loops=v.get("loops"), iteration_paths=v.get("iteration_paths"), assumed_min_count=v.get("assumed_min_count"), call_sites=v.get("call_sites")) for k, v in prim.items()},
+               explanation="%d read obligations over all function definitions: %d discharged, %d outside the reach of the domain in %d functions (listed with reasons, not claimed), "
                "the rest matched against known findings or reported." % (st["total"], st["discharged"], st["outside_reach"], len(st["outside_reach_functions"])),
                obligations=st["total"], discharged=st["discharged"], outside_reach=st["outside_reach"], outside_reach_functions=st["outside_reach_functions"],
                fully_discharged_functions=st["fully_discharged_functions"], fixtures=fx, frontend=info, no_slack_configuration=st.get("noslack", "thorough tier only"),
                summary="%d read obligations, %d discharged, %d outside reach" % (st["total"], st["discharged"], st["outside_reach"]))
     return ck.finish(cov, ["truthfulness premise: each caller buffer has at least the declared number of elements", "libc effect table (sa/effects.py)",
-                           "NUL-terminated sources without a length parameter are not bounded by this check", "functions listed in tables/cap_reach.json are not analysed"])
+                           "NUL-terminated sources without a length parameter are not bounded by this check", "functions listed in tables/cap_reach.json are not analysed by the bound engine; of these the seven mem_prim_* primitives are decided by the byte accounting of sa/accounting.py instead (all their stores/loads lie in [0, len*size))"])
 
 
 def selftest(ck):
